@@ -95,6 +95,19 @@ def cases(seed, tier):
         ks = sorted(set(k for k in [0, 1, 85, 86, 170, 171, 341, 342, 682, 683, 1365, 1366, L // 6, L // 3 - 1, L // 3] if 0 <= k <= L // 3))
         yield ["split", "id:%d" % r.choice(IDS), s, ",".join(map(str, ks))]
         yield ["case", "id:%d" % r.choice(IDS), s, randword(r, "ul", 3)]
+    # --- ONE-CASE strings with a short island of the other case (1..8 letters) at the start, at the end, inside the last
+    # 8 / 16 bytes or anywhere, for lengths on and off multiples of 8 / 16 / 64: a fast path that decides "already upper-case"
+    # by scanning blocks and mis-handles the last block (seeded change C06-m) drops the residues of the island's codons;
+    # letter-by-letter random case and periodic masks never produce such a string
+    for L in [64, 72, 80, 96, 104, 120, 128, 192, 256, 512, 1024, 63, 65, 66, 69, 75, 100, 129, 24, 48, 3, 9] + [8 * r.randint(8, 200) for _ in range(6)]:
+        for pos in (0, L - 1, L - 3, L - 8, max(0, L - r.randint(1, 16)), r.randrange(L)):
+            w = randword(r, ACGT, L)
+            k = r.randint(1, 8)
+            a = max(0, min(L - 1, pos))
+            isl = w[:a] + w[a:a + k].lower() + w[a + k:]
+            if r.random() < 0.3:
+                isl = isl.swapcase()
+            yield ["split", "id:%d" % r.choice(IDS), isl, "0,%d" % (L // 6)]
     # --- histories on one private table instance (re-weighted / re-lettered in place between translations)
     for _ in range(12 if not thorough else 150):
         steps = []
